@@ -255,6 +255,7 @@ def check(model: Model, run: Run) -> None:
     exact_markers(model, run)
     empty_values_accepted(model, run)
     serialisers_are_pure(model, run)
+    components_rendered_as_held(model, run)
     no_size_based_rejection(model, run)
     from .c19 import parse_results_fresh
     parse_results_fresh(model, run, "sansldap._filter", "J5-parse-results-are-fresh", "from_string(str(f)) == f")
@@ -479,6 +480,55 @@ def serialisers_are_pure(model: Model, run: Run) -> None:
                              f"{fi.qualname.split('sansldap.')[-1]} uses {bad}: the text of a filter must be computed from its current fields every time "
                              "(sub-filter lists are mutable), otherwise it stops matching the object", model.loc(fi.module, fi.node)))
     run.floor("filter __str__ methods", n, 8)
+
+
+def components_rendered_as_held(model: Model, run: Run, rule: str = "J13-components-rendered-as-held") -> None:
+    """J13: a filter's text shows every element of its list fields, in order: the serialisers (and the module helpers they are
+    split into) never push a collection through set()/sorted()/reversed()/filter()/dict.fromkeys() or a comprehension with a
+    condition.  FilterAnd([a, a]) and FilterAnd([a]) are different values; a text that merges them cannot be parsed back to
+    the filter it came from."""
+    from ..anchors import reachable
+    LOSSY = {"set", "frozenset", "sorted", "reversed", "filter"}
+    seen = {}
+    for cq in model.subclasses(f"{FILTER}.LDAPFilter"):
+        m_ = model.find_method(cq, "__str__")
+        if m_ is not None:
+            for f_ in reachable(model, m_, FILTER):
+                if not isinstance(f_.node, ast.Lambda):
+                    seen[f_.qualname] = f_
+    n = 0
+    list_fields = set()
+    for cq in model.subclasses(f"{FILTER}.LDAPFilter"):
+        for f in model.dataclass_fields(cq):
+            if f.annotation is not None and any(k in norm(f.annotation) for k in ("List[", "Sequence[", "Iterable[", "Set[", "Tuple[")):
+                list_fields.add(f.name)
+    for fq, fi in sorted(seen.items()):
+        n += 1
+        bad = None
+        coll_params = {a.arg for a in fi.node.args.posonlyargs + fi.node.args.args + fi.node.args.kwonlyargs
+                       if a.annotation is not None and any(k in norm(a.annotation) for k in ("List[", "Sequence[", "Iterable[", "Set[", "Iterator[", "Collection["))}
+
+        def from_collection(e: ast.AST) -> bool:
+            return any((isinstance(y, ast.Attribute) and isinstance(y.value, ast.Name) and y.value.id == "self" and y.attr in list_fields) or
+                       (isinstance(y, ast.Name) and y.id in coll_params) for y in ast.walk(e))
+        for x in ast.walk(fi.node):
+            if isinstance(x, ast.Call):
+                fn = norm(x.func)
+                if (fn in LOSSY or fn.endswith(".fromkeys") or fn.split(".")[-1] in ("groupby", "unique_everseen")) and x.args and any(from_collection(a) for a in x.args):
+                    bad = x
+            elif isinstance(x, (ast.ListComp, ast.GeneratorExp, ast.SetComp, ast.DictComp)) and (any(g.ifs for g in x.generators) or isinstance(x, (ast.SetComp, ast.DictComp))):
+                if any(from_collection(g.iter) for g in x.generators):
+                    bad = x
+            elif isinstance(x, ast.Subscript) and isinstance(x.slice, ast.Slice) and isinstance(x.ctx, ast.Load) and from_collection(x.value) and \
+                    isinstance(x.value, (ast.Name, ast.Attribute)):
+                bad = x
+            if bad is not None:
+                break
+        run.ob(rule, bad is None, {"function": fq.split("sansldap.")[-1]})
+        if bad is not None:
+            run.fail(Finding(rule, fq, norm(bad)[:80], f"{fq.split('sansldap.')[-1]} renders `{norm(bad)[:70]}`: elements of a collection can be dropped, merged or reordered on the way "
+                             "to the text, so the parsed filter has different components than the one that was serialised", model.loc(fi.module, bad)))
+    run.floor("filter serialising functions", n, 6)
 
 
 def no_size_based_rejection(model: Model, run: Run) -> None:
